@@ -17,6 +17,7 @@ CONSTANTS
   MaxCands = 2
   MaxCandsA = 1
   MaxAborts = 0
+  MaxFails = 0
   MaxJumps = 1
   PreNames = {"hub"}
   Export = TRUE
